@@ -89,7 +89,52 @@ def check(ctx):
             "the bracket is [c1, c2] * 0.27 pr/Tr with constants 0 < c1 < 1 < c2 (it contains the ideal-gas density, Z = 1)",
             signature="bracket", lower=nf.show(lo), upper=nf.show(hi),
         )
+    check_hall_yarbrough(ctx)
     ctx.floor("C06", len(ctx.obligs), 3, "DAK obligations")
+
+
+def check_hall_yarbrough(ctx):
+    """C06-e: the Hall-Yarbrough Newton iteration cannot return its un-iterated starting guess: the loop
+    is entered (its first test is constant-true) and every exit from the loop body lies after the
+    Newton update.  (With the routine's absolute tolerance and tiny starting guess, accepting the start
+    value makes Z proportional to p at low pressure.)"""
+    from ..values import BoolV
+    from .common import interp
+
+    P = ctx.P
+    q = GAS + "z_factor_hallyarbrough"
+    f = P.func(q)
+    ctx.touch(q)
+    loops = [n for n in ast.walk(f.node) if isinstance(n, (ast.While, ast.For))]
+    if len(loops) != 1:
+        raise AnalysisError(f"{q}: expected one iteration loop, found {len(loops)}")
+    loop = loops[0]
+
+    def is_update(st):
+        if isinstance(st, ast.AugAssign) and isinstance(st.op, ast.Sub) and isinstance(st.target, ast.Name):
+            return st.target.id
+        if isinstance(st, ast.Assign) and len(st.targets) == 1 and isinstance(st.targets[0], ast.Name) and isinstance(st.value, ast.BinOp) and isinstance(st.value.op, ast.Sub) and isinstance(st.value.left, ast.Name) and st.value.left.id == st.targets[0].id:
+            return st.targets[0].id
+        return None
+
+    idx = next((k for k, st in enumerate(loop.body) if is_update(st)), None)
+    if idx is None:
+        raise AnalysisError(f"{q}: no Newton update `y = y - f/df` at the top level of the loop body")
+    early = [n.lineno for st in loop.body[:idx] for n in ast.walk(st) if isinstance(n, (ast.Break, ast.Return))]
+    it = interp(ctx)
+    entered = False
+    for p in it.run_function(q):
+        for e in p.events:
+            if e.kind == "while_test" and e.node is loop:
+                t = e.data["test"]
+                entered = isinstance(t, BoolV) and t.kind == "const" and bool(t.a)
+    if isinstance(loop, ast.For):
+        entered = True
+    ctx.check(
+        entered and not early, "C06-e", q + ":at least one Newton update", f"{f.file}:{loop.lineno}",
+        "the iteration is entered unconditionally and cannot leave the loop before the first Newton update (the starting guess is never returned as the solution)",
+        signature=("loop may be skipped" if not entered else "") + (" exit before update at line " + ",".join(map(str, early)) if early else ""),
+    )
 
 
 def _validated(fnode):
